@@ -42,6 +42,7 @@ type Gen struct {
 	Leaves   int      // mask for leaf positions
 	Kinds    int      // mask for non-leaf positions
 	Width    int      // struct fields / union branches
+	UnionWidth int    // union branches (defaults to Width)
 	Nullable bool     // make Nullable symbolic (else false)
 	Required bool     // make Required symbolic (else true)
 	Defaults bool     // symbolic defaults on scalars
@@ -129,7 +130,13 @@ func (g *Gen) RefName() string {
 }
 
 func (g *Gen) Ref() ast.Type {
-	return g.decorate(ast.NewRef(g.RefPkg(), g.RefName()))
+	t := ast.NewRef(g.RefPkg(), g.RefName())
+	if g.Defaults && v.Choose(2) == 1 {
+		// a reference position can carry its own default and hints (e.g. a reference to an enum with a default)
+		t.Default = v.Str("refdefault", "x", "")
+		t.Hints["h"] = "x"
+	}
+	return g.decorate(t)
 }
 
 // Enum builds an enum the way the three parsers do: member names are derived from
@@ -199,7 +206,14 @@ func (g *Gen) Type(depth int) ast.Type {
 		return g.decorate(g.Struct(depth - 1))
 	case KDisjunction:
 		n := g.Width
+		if g.UnionWidth > 0 {
+			n = 2 + v.Choose(g.UnionWidth-1) // 2..UnionWidth branches
+		}
 		var br ast.Types
+		// branches are plain (no defaults / constraints of their own): keeps the number of shapes linear in the width
+		saveD, saveC := g.Defaults, g.Constraints
+		g.Defaults, g.Constraints = false, false
+		defer func() { g.Defaults, g.Constraints = saveD, saveC }()
 		for i := 0; i < n; i++ {
 			b := g.Type(depth - 1)
 			for _, prev := range br {
